@@ -83,6 +83,7 @@ def part_b(rep, cov, tier):
             texts.append(("%s#triv%d" % (name, k), corpus.mutate_trivia(t, rng, n=8)))
             texts.append(("%s#inv%d" % (name, k), corpus.mutate_trivia(t, rng, n=6, invalid=True)))
         texts.append((name + "#oscat", corpus.OSCAT + "\n" + t))
+        texts.append((name + "#oscatcrlf", corpus.OSCAT.replace("\n", "\r\n") + "\r\n" + t))
         cut = rng.randrange(1, max(2, len(t)))
         texts.append((name + "#cut", t[:cut]))
     nsoup = 150 if tier == "quick" else 3000
